@@ -126,6 +126,27 @@ func drawPath(name string, px, py float64, data []float64) letter {
 		func(m *mrun) { m.drawPath(px, py, data, m.cur.st) }}
 }
 
+// drawPaths is one DrawPath call with several paths ("draws the paths at position (x,y)": each of
+// them with the current state).
+func drawPaths(name string, px, py float64, datas ...[]float64) letter {
+	return letter{name,
+		func(x *exec) {
+			var ps []*canvas.Path
+			for _, data := range datas {
+				p := canvas.NewPathFromData(append([]float64(nil), data...))
+				x.paths = append(x.paths, p)
+				x.pathData = append(x.pathData, append([]float64(nil), data...))
+				ps = append(ps, p)
+			}
+			x.ctx.DrawPath(px, py, ps...)
+		},
+		func(m *mrun) {
+			for _, data := range datas {
+				m.drawPath(px, py, data, m.cur.st)
+			}
+		}}
+}
+
 func pendData(m *mrun) []float64 {
 	d := append([]float64(nil), m.pend.Data()...)
 	m.pend = &canvas.Path{} // "…and resets the path"
@@ -160,6 +181,7 @@ func alphabet() []letter {
 		setDashes("SetDashes(-0.25, 0.75)", -0.25, dashShort),
 		setDashes("SetDashes(6.5, 6,9)", 6.5, dashGap),
 		setDashes("SetDashes(-1, 6)", -1, dashOdd),
+		setDashes("SetDashes(-0.6, 0.75)", -0.6, dashShort), // the first 0.6 of every path lies in a gap
 		setDashes("SetDashes(0)", 0, nil),
 		{"SetFillRule(EvenOdd)", func(x *exec) { x.ctx.SetFillRule(canvas.EvenOdd) }, func(m *mrun) { m.cur.st.rule = 1 }},
 		{"SetFillRule(NonZero)", func(x *exec) { x.ctx.SetFillRule(canvas.NonZero) }, func(m *mrun) { m.cur.st.rule = 0 }},
@@ -185,6 +207,7 @@ func alphabet() []letter {
 		drawPath("DrawPath(1,2, M0 0L2 0Q2 1.5 0 1z)", 1, 2, p1Data),
 		drawPath("DrawPath(-2,0.5, M0 0L4 0L4 1)", -2, 0.5, p2Data),
 		drawPath("DrawPath(0,0, M0 0L0.5 0)", 0, 0, p3Data),
+		drawPaths("DrawPath(0,0, M0 0L0.5 0, M0 0L4 0L4 1)", 0, 0, p3Data, p2Data),
 		{"DrawText(2,3,\"Hi\")", func(x *exec) { x.ctx.DrawText(2, 3, theText) }, func(m *mrun) { m.drawText(2, 3) }},
 		{"DrawImage(1,1.5, 3x2px, 2px/mm)", func(x *exec) { x.ctx.DrawImage(1, 1.5, theImage, canvas.DPMM(imgRes)) }, func(m *mrun) { m.drawImage(1, 1.5, imgW, imgH, imgRes) }},
 		{"MoveTo(1,1)", func(x *exec) { x.ctx.MoveTo(1, 1) }, func(m *mrun) { m.pend.MoveTo(1, 1) }},
